@@ -446,8 +446,8 @@ def export_sm_element(el):
         r["internal"] = "internal" in (el.info or {})
         if members and not r["var"]:
             r["unsupported"] = "event as member of a flow / action constructor"
-        if r["name"] in ("FinishFlow", "StopFlow"):
-            r["unsupported"] = "explicit FinishFlow/StopFlow"
+        if r["name"] in ("FinishFlow", "StopFlow") and (r["k"] != "send" or not any(a[0] == "flow_id" for a in r["args"])):
+            r["unsupported"] = "FinishFlow/StopFlow other than `send ...(flow_id=...)`"
         bad = [a for a in r["args"] + r["margs"] if a[1]["k"] == "unsupported"]
         if bad:
             r["unsupported"] = "arg expr: " + bad[0][1]["v"]
